@@ -281,7 +281,7 @@ theorem isMinOf_next (s : VLCore) (pre : List Rat) (v : Rat) (h : IsMinOf s.best
         cases h' : ltBest v (some b) with
         | false => rfl
         | true => exact absurd ((ltBest_some v b).1 h') hlt
-      simp only [this, hb, IsMinOf]
+      simp only [this, IsMinOf]
       refine ⟨by simp [hmem], ?_⟩
       intro x hx
       rcases List.mem_append.1 hx with hx | hx
@@ -466,7 +466,7 @@ def toyVal : Prog Int Nat Nat Int Int Int Int Nat Int :=
     nextBatch := fun g => (g + 1, (g : Int)),
     isNaN := fun θ => θ == 1000,
     track := fun θ => θ,
-    validate := fun c θ => ⟨c + 1, c == 2, 10 * (c : Int) + 1, c == 0 || c == 2⟩,
+    validate := fun c _ => ⟨c + 1, c == 2, 10 * (c : Int) + 1, c == 0 || c == 2⟩,
     callEvery := 3, v0 := 0, t0 := 0, p0 := 0, c0 := 0 }
 
 example : (solve toyVal 20 50 0 0 (some 0)).i = 7 := by decide
